@@ -638,6 +638,15 @@ func (n *Node) fastForward() error {
 		return fmt.Errorf("getBestFastForwardResponse returned nil")
 	}
 
+	//check the response before touching the application
+	n.coreLock.Lock()
+	err = n.core.checkFastForward(&resp.Block, &resp.Frame)
+	n.coreLock.Unlock()
+	if err != nil {
+		n.logger.WithError(err).Error("Checking FastForwardResponse")
+		return err
+	}
+
 	//update app from snapshot
 	err = n.proxy.Restore(resp.Snapshot)
 	if err != nil {
